@@ -48,6 +48,12 @@ CLAIMS = {
     "C20": dict(cat="other", ref="DESIGN.md 5/C20",
         text="partial: for every waiting state class, _wait_for_fut_result -- whatever happened before the wait ends (message arrived, nothing arrived, the state's own timer already fired) -- returns the message and moves on, or raises an error of the binding-error family with the context in DevHasFailedBinding (no longer binding), one transition per wait; put_bind, is_phase (command and packet) and parser_1fc9 agree on the phase and the four phases are mutually exclusive on all 1FC9/10E0 frames: SMT-discharged on the real functions",
         note="trusted: pyvc semantics; asyncio.wait_for / shield / Future are typestate contracts (CPython >= 3.11 semantics: wait_for cancels the awaited future on timeout); NOT decided: interleavings of duplicated, echoed and third-party frames, the 3 s / 5 s timing, the send-retry states (_DevIsReadyToSendCmd)"),
+    "C16": dict(cat="other", ref="DESIGN.md 5/C16",
+        text="partial: (1) the textual storage format -- Packet.from_dict(repr(p)[:26], repr(p)[27:]) is an equal packet with the same timestamp for every accepted packet of the enumerated shapes; (2) the snapshot filter of Gateway.get_state keeps no request, no write other than a W|0404 longer than 7 bytes, and (unless asked) no expired packet -- the last clause with the listed known finding for 313F; SMT-discharged on the real functions",
+        note="trusted: pyvc semantics, z3; pkt_lifespan by its call-site contract; device/system message stores are contracts; NOT decided: the gateway-level fixpoint snapshot -> fresh gateway -> snapshot, idempotence of restoring twice"),
+    "C17": dict(cat="other", ref="DESIGN.md 5/C17",
+        text="partial: per-switchpoint inverse (_struct_unpack o _struct_pack == id for all zones, days, the 288 times, setpoints 5.00-35.00 on the 0.01 grid and on/off), time-of-day text inverse, lossless 82-character fragmenting, Command.set_schedule_fragment -> schema-valid W|0404 of <= 48 bytes that parser_0404 decodes to the same fragment, and the payload-set invariant of _update_payload_set (slot i = fragment i+1, order-independent, idempotent): SMT-discharged",
+        note="trusted: pyvc semantics incl. the struct model for '< x B H', z3; zlib round trip assumed (A12); whole-week loops (day grouping in fragz_to_full_sched) are not under contract -- a bounded native sweep would be the stand-in; NOT decided: that a mixed fragment set is always rejected (rests on zlib's checksum)"),
 }
 
 NA = {
